@@ -51,6 +51,7 @@ def in_child(fn, timeout: float = 600):
     pid = os.fork()
     if pid == 0:
         os.close(r)
+        os.setpgid(0, 0)          # own process group: helpers that outlive the child are killed by the parent
         try:
             payload = fn()
             with os.fdopen(w, "w") as fh:
@@ -94,6 +95,8 @@ def in_child(fn, timeout: float = 600):
         elif not ready:
             break
     os.close(r)
+    with contextlib.suppress(ProcessLookupError, PermissionError):
+        os.killpg(pid, 9)         # stragglers of the child's process group (e.g. an orphaned Manager server)
     data = b"".join(chunks).decode()
     code = os.waitstatus_to_exitcode(status)
     return code, (json.loads(data) if data else None)
